@@ -32,7 +32,7 @@ ALGOS = ["T_HOO", "HCT", "VHCT", "SOO", "DOO", "StoSOO", "SequOOL", "Zooming", "
 
 def explore(tier, seed, n):
     import algo_prop
-    cases = [part_cases.gen_partition_case(seed, i, wellformed=(i % 5 != 4)) for i in range(n)]
+    cases = part_cases.extreme_cases(seed) + [part_cases.gen_partition_case(seed, i, wellformed=(i % 5 != 4)) for i in range(n)]
     per = {"quick": 3, "thorough": 40}[tier]
     acases = algo_prop.run_cases([(seed + 300, i, a, None) for a in ALGOS for i in range(per)])
     # The C03 theorems are about the partition operations; an algorithm run is tied to them by checking, on the live
@@ -62,7 +62,7 @@ def replay(path):
         import algo_prop
         c = algo_prop._one((m["seed"], m["idx"], m["algo"], m.get("force") or None))
     else:
-        c = part_cases.gen_partition_case(m["seed"], m["idx"], wellformed=m["wellformed"])
+        c = part_cases.gen_partition_case(m["seed"], m["idx"], wellformed=m["wellformed"], force=m.get("force") or None)
     mism, _ = fw.compare([c])
     for f in c.monitor:
         print("monitor:", f)
